@@ -4,7 +4,6 @@ package main
 
 import (
 	"go/ast"
-	"go/constant"
 	"go/types"
 	"strings"
 )
@@ -85,8 +84,8 @@ func checkTSNullable(w *World, r *Result) {
 			if !ok || len(ret.Results) != 1 {
 				return true
 			}
-			call, ok := ret.Results[0].(*ast.CallExpr)
-			if !ok || !isSprintf(info, &call) {
+			call := sprintfView(info, ret.Results[0])
+			if call == nil {
 				return true
 			}
 			format, vas := verbArgs(info, call)
@@ -154,8 +153,8 @@ func checkTSNullable(w *World, r *Result) {
 	// the alias declared is the one typeName prints: Content uses typeName(ty)
 	alias := false
 	ast.Inspect(ca.Decl.Body, func(x ast.Node) bool {
-		call, ok := x.(*ast.CallExpr)
-		if !ok || !isSprintf(cinfo, &call) {
+		call := sprintfView(cinfo, x)
+		if call == nil {
 			return true
 		}
 		format, vas := verbArgs(cinfo, call)
@@ -169,35 +168,21 @@ func checkTSNullable(w *World, r *Result) {
 
 func checkTSPrimitives(w *World, r *Result) {
 	fi := w.MustFunc("generator/typescript.typeName")
-	info := fi.Pkg.TypesInfo
+	_ = fi.Pkg.TypesInfo
 	want := map[string][]string{"BKString": {"string"}, "BKInt": {"Int", "number"}, "BKFloat": {"number"}, "BKBool": {"boolean"}}
 	n := 0
-	ast.Inspect(fi.Decl.Body, func(x ast.Node) bool {
-		sw, ok := x.(*ast.SwitchStmt)
-		if !ok || sw.Tag == nil {
-			return true
+	d := constDispatchOf(w, fi, "analysis.BasicKind")
+	var ks []string
+	for k := range d.results {
+		ks = append(ks, k)
+	}
+	sortStrings(ks)
+	for _, k := range ks {
+		for _, got := range uniqStr(d.results[k]) {
+			n++
+			r.cond(containsStr(want[k], got), "AGR-C03p", fi.Name, k+" -> "+got, w.Pos(d.pos), "the TypeScript primitive of the JSON value Go emits for this kind", "a Go "+k+" value is encoded as a JSON "+strings.Join(want[k], "/")+", but the printed type is "+got)
 		}
-		if t := info.TypeOf(sw.Tag); t == nil || !strings.HasSuffix(t.String(), "analysis.BasicKind") {
-			return true
-		}
-		for _, cl := range sw.Body.List {
-			cc := cl.(*ast.CaseClause)
-			for _, e := range cc.List {
-				k := es(e)
-				k = k[strings.LastIndex(k, ".")+1:]
-				if len(cc.Body) == 1 {
-					if ret, ok := cc.Body[0].(*ast.ReturnStmt); ok {
-						if tv := info.Types[ret.Results[0]]; tv.Value != nil {
-							got := constant.StringVal(tv.Value)
-							n++
-							r.cond(containsStr(want[k], got), "AGR-C03p", fi.Name, k+" -> "+got, w.Pos(ret.Pos()), "the TypeScript primitive of the JSON value Go emits for this kind", "a Go "+k+" value is encoded as a JSON "+strings.Join(want[k], "/")+", but the printed type is "+got)
-						}
-					}
-				}
-			}
-		}
-		return false
-	})
+	}
 	if n < 4 {
 		Undecided("typescript.typeName: only %d basic kinds mapped", n)
 	}
@@ -219,41 +204,47 @@ func checkTSPrimitives(w *World, r *Result) {
 func checkTSEnum(w *World, r *Result) {
 	fi := w.MustFunc("generator/typescript.codeForEnum")
 	info := fi.Pkg.TypesInfo
-	var loop *ast.RangeStmt
+	// the loop(s) over the members: every list built there must have one entry per member, and one of them the
+	// `name : value` entries
+	var loops []*ast.RangeStmt
 	ast.Inspect(fi.Decl.Body, func(x ast.Node) bool {
 		if rs, ok := x.(*ast.RangeStmt); ok && strings.HasSuffix(es(rs.X), ".Members") {
-			loop = rs
+			loops = append(loops, rs)
 		}
 		return true
 	})
-	if loop == nil {
+	if len(loops) == 0 {
 		Undecided("typescript.codeForEnum: no loop over Members")
 	}
-	v := info.Defs[identOf(loop.Value)]
-	apps := accumStmts(info, fi.Decl, loop)
-	uncond := len(apps) >= 1
+	napps := 0
+	uncond := true
 	var guards []string
-	for _, a := range apps {
-		if cs := reachConds(info, fi.Decl, loop, a.stmt, map[types.Object]string{v: "$m"}); len(cs) != 0 {
-			uncond = false
-			guards = append(guards, cs...)
-		}
-	}
-	r.cond(uncond, "AGR-C03e", fi.Name, "enum object lists every member", w.Pos(loop.Pos()), "one entry per member (exported or not), unconditionally: the literal set is the enum's value set", "members are filtered ("+strings.Join(guards, ", ")+"): a value Go can emit is not in the TypeScript literal set")
-	// value printed is the constant's value, key its name
 	okPair := false
-	ast.Inspect(loop.Body, func(x ast.Node) bool {
-		call, ok := x.(*ast.CallExpr)
-		if !ok || !isSprintf(info, &call) {
+	for _, loop := range loops {
+		v := info.Defs[identOf(loop.Value)]
+		apps := accumStmts(info, fi.Decl, loop)
+		napps += len(apps)
+		for _, a := range apps {
+			if cs := reachConds(info, fi.Decl, loop, a.stmt, map[types.Object]string{v: "$m"}); len(cs) != 0 {
+				uncond = false
+				guards = append(guards, cs...)
+			}
+		}
+		// value printed is the constant's value, key its name
+		ast.Inspect(loop.Body, func(x ast.Node) bool {
+			call := sprintfView(info, x)
+			if call == nil {
+				return true
+			}
+			format, vas := verbArgs(info, call)
+			if strings.HasPrefix(format, "%s : %s") && len(vas) >= 2 && vas[1].arg != nil && rendersConstVal(info, vas[1].arg, v) {
+				okPair = true
+			}
 			return true
-		}
-		format, vas := verbArgs(info, call)
-		if strings.HasPrefix(format, "%s : %s") && len(vas) >= 2 && vas[1].arg != nil && rendersConstVal(info, vas[1].arg, v) {
-			okPair = true
-		}
-		return true
-	})
-	r.cond(okPair, "AGR-C03e", fi.Name, "entry = <name> : <constant value>", w.Pos(loop.Pos()), "the value printed is the Val() of the member's constant (how it is printed is decided by CONST-EXACT)", "enum entries are not `name : value of the constant`")
+		})
+	}
+	r.cond(uncond && napps >= 1, "AGR-C03e", fi.Name, "enum object lists every member", w.Pos(loops[0].Pos()), "one entry per member (exported or not), unconditionally: the literal set is the enum's value set", "members are filtered ("+strings.Join(guards, ", ")+"): a value Go can emit is not in the TypeScript literal set")
+	r.cond(okPair, "AGR-C03e", fi.Name, "entry = <name> : <constant value>", w.Pos(loops[0].Pos()), "the value printed is the Val() of the member's constant (how it is printed is decided by CONST-EXACT)", "enum entries are not `name : value of the constant`")
 }
 
 // rendersConstVal: e is a call (a method of constant.Value, or a printer taking a constant.Value) applied to
